@@ -395,7 +395,9 @@ func c09Meta(c *core.Ctx, k c09Case) {
 	switch k.Kind {
 	case "meta-marshal":
 		// real Marshal (stamps its own minute) vs reference encoder given the same timestamp
+		m0 := uint32(time.Now().Unix() / 60)
 		b, stamp := realMarshal(k.Layout, f)
+		m1 := uint32(time.Now().Unix() / 60)
 		f[ti] = stamp
 		c.Eval("meta-marshal/"+metaSpecOf(k.Layout, k.Fields), true)
 		spec := c.Model.Ask("spec-meta-enc %s", metaSpecOf(k.Layout, f))
@@ -413,8 +415,10 @@ func c09Meta(c *core.Ctx, k c09Case) {
 		if !strings.HasPrefix(dec, "ok "+metaSpecOf(k.Layout, f)+" ") {
 			c.Violate("C09/meta/real-to-spec/layout="+k.Layout, fmt.Sprintf("reference decodes the code's metadata as %s, sent %s", dec, metaSpecOf(k.Layout, f)), k)
 		}
-		if now, stable := nowMinute(); stable && stamp != now {
-			c.Violate("C09/meta/timestamp-not-minutes", fmt.Sprintf("stamped timestamp %d, minutes since epoch %d", stamp, now), k)
+		// the minute is read before and after the call (reading it only afterwards, and after the model
+		// calls above, alarms whenever a minute tick falls in between)
+		if stamp < m0 || stamp > m1 {
+			c.Violate("C09/meta/timestamp-not-minutes", fmt.Sprintf("stamped timestamp %d, minutes since epoch %d..%d", stamp, m0, m1), k)
 		}
 	case "meta-unmarshal":
 		// reference encoder (timestamp = now + delta minutes) vs real Unmarshal
@@ -630,6 +634,7 @@ func c09StreamR2S(c *core.Ctx, k c09Case) {
 	conn := &memConn{}
 	end := protocol.VerifNewStreamEnd(conn, block, 1400, nil)
 	var want []string
+	minute0 := time.Now().Unix() / 60
 	for _, s := range k.Segs {
 		c09SegHist(c, "stream-r2s", s)
 		sent, err := end.WriteSegment(s.toVerifSegment())
@@ -639,6 +644,7 @@ func c09StreamR2S(c *core.Ctx, k c09Case) {
 		}
 		want = append(want, segToken(sent))
 	}
+	minute1 := time.Now().Unix() / 60
 	wire := conn.Bytes()
 	c.Eval(fmt.Sprintf("stream-r2s/%v/%d", k.Segs, k.ChunkSeed), true)
 	// the receiver's clock may sit in a neighbouring slot: keys for now + skew*120 s
@@ -705,16 +711,18 @@ func c09StreamR2S(c *core.Ctx, k c09Case) {
 		}
 	}
 	// the timestamps the code stamped are minutes since the epoch
-	if nm, stable := nowMinute(); stable {
-		for _, t := range got {
-			f := strings.Split(strings.SplitN(t, ":", 2)[0], "/")
-			ti := 2
-			if f[0] == "l" {
-				ti = 3
-			}
-			if f[ti] != fmt.Sprint(nm) {
-				c.Violate("C09/meta/timestamp-not-minutes", fmt.Sprintf("stamped %s, minutes since epoch %d", f[ti], nm), k)
-			}
+	// (the minute was read before and after the writes; reading it only here, after the model calls,
+	// alarms whenever a minute tick falls in between)
+	for _, t := range got {
+		f := strings.Split(strings.SplitN(t, ":", 2)[0], "/")
+		ti := 2
+		if f[0] == "l" {
+			ti = 3
+		}
+		var st int64 = -1
+		fmt.Sscan(f[ti], &st)
+		if st < minute0 || st > minute1 {
+			c.Violate("C09/meta/timestamp-not-minutes", fmt.Sprintf("stamped %s, minutes since epoch %d..%d", f[ti], minute0, minute1), k)
 		}
 	}
 }
